@@ -319,7 +319,7 @@ def shards(tier, seed):
     sc = small_codes()
     items += [('small', lo, min(len(sc), lo + 6)) for lo in range(0, len(sc), 6)]
     items += [('cap', tier, c) for c in capacity_cases(tier)]
-    items += [('u60',), ('endings',), ('chain', tier)]
+    items += [('u60',), ('endings',), ('chain', tier), ('history',)]
     items.sort(key=lambda it: 0 if it[0] == 'cap' else 1)
     return items
 
@@ -380,6 +380,14 @@ def run_shard(item):
         for i, code in enumerate([b'x=1 x=1 x=1 x=1 x=1 x=1\r\ny=2 y=2 y=2 y=2 y=2\r\n', b'x=1\r\n', b'x=1\n\n\n',
                                   b'x=1 x=1 x=1 x=1 x=1 x=1 x=1 x=1\n\n', b'\n', b'x=1\rx=2 x=2 x=2 x=2 x=2 x=2']):
             write_and_check({}, 33, code, None, res, ('endings', i))
+    elif kind == 'history':
+        from props import c03
+        r = ShardResult()
+        c03.path_history(r, '.p8.png')
+        for sig, v in r.violations.items():
+            res.violation(sig.replace('C03|', 'C04|', 1), v[0], v[1])
+        r.violations = {}
+        res.merge(r)
     elif kind == 'chain':
         n = 3 if item[1] == 'quick' else 12
         for i in range(n):
@@ -414,6 +422,8 @@ def replay(case):
             write_and_check(carts.region_fills(0, 0), 33, U60[tag[1]], dest, res, tag)
     elif kind == 'endings':
         res.merge(run_shard(('endings',)))
+    elif kind == 'history':
+        res.merge(run_shard(('history',)))
     elif kind == 'chain':
         res.merge(run_shard(('chain', 'thorough')))
     return [(s, v[0]) for s, v in res.violations.items()]
